@@ -144,6 +144,13 @@ func canonTo(b *strings.Builder, v types.MalType, depth int, errFn func(error) s
 		b.WriteString("#future")
 	case error:
 		b.WriteString(errFn(x))
+	case []byte:
+		b.WriteString("#bin<")
+		for _, c := range x {
+			b.WriteString(strconv.Itoa(int(c)))
+			b.WriteByte(' ')
+		}
+		b.WriteString(">")
 	default:
 		b.WriteString("#other")
 	}
